@@ -51,7 +51,8 @@ def strategy(tier, unit):
             "global": st.booleans(), "blockname": st.from_regex(r"[a-z][a-z0-9]{0,6}", fullmatch=True).filter(lambda s: s != "global")})
     atom = st.fixed_dictionaries({
         "el": st.integers(0, 93), "frac": st.one_of(st.tuples(S.fl(0.02, 0.98), S.fl(0.02, 0.98), S.fl(0.02, 0.98)).map(list), st.just([0.0, 0.0, 0.0])),
-        "occ": S.fl(0.01, 1.0), "b": S.fl(0.5, 99.0), "het": st.booleans(), "name": st.from_regex(r"[A-Z][A-Z0-9]{0,3}", fullmatch=True)})
+        "occ": S.fl(0.01, 1.0), "b": st.one_of(S.fl(0.5, 99.0), S.fl(99.0, 999.0)), "het": st.booleans(),
+        "cellshift": st.sampled_from([[0, 0, 0], [0, 0, 0], [-3, 1, -2], [2, -3, 3]]), "name": st.from_regex(r"[A-Z][A-Z0-9]{0,3}", fullmatch=True)})
     return st.fixed_dictionaries({
         "k": st.just("pdb"), "sgno": st.integers(1, 230), "placeholders": st.booleans(),
         "abc": st.tuples(S.fl(5, 90), S.fl(5, 90), S.fl(5, 90)).map(list), "ang": st.tuples(S.fl(65, 115), S.fl(91, 120), S.fl(-1, 1)).map(list),
@@ -399,7 +400,10 @@ def write_pdb(case):
     els = elements()
     atoms = []
     for k, a_ in enumerate(case["atoms"]):
-        xyz = A @ (np.array(a_["frac"], float) - np.array(case.get("origin", [0.0, 0.0, 0.0]), float))
+        # (atoms several cells away from the origin give coordinates that fill the 8-character fields, B >= 100 the 6-character one)
+        xyz = A @ (np.array(a_["frac"], float) + np.array(a_.get("cellshift", [0, 0, 0]), float) - np.array(case.get("origin", [0.0, 0.0, 0.0]), float))
+        if np.max(np.abs(xyz)) >= 999.0:
+            xyz = A @ (np.array(a_["frac"], float) - np.array(case.get("origin", [0.0, 0.0, 0.0]), float))
         el = els[a_["el"]]
         name = a_["name"][:4]
         rec = "HETATM" if a_["het"] else "ATOM  "
